@@ -77,6 +77,9 @@ class Cloner:
         # Every node created by this cloner, in creation order. Used to detach the nodes of a
         # graph whose cloning fails from the values they use.
         self._created_nodes: list[_core.Node] = []
+        # Outputs of nodes of the graphs being cloned that are not cloned yet. Used to tell an
+        # outer-scope value from a use-before-definition in a graph that is not sorted.
+        self._pending_outputs: set[_core.Value] = set()
 
     @_capture_error_context
     def _get_value(self, value: _core.Value) -> _core.Value | None:
@@ -181,6 +184,11 @@ class Cloner:
                         "but 'allow_outer_scope_values' is set to False. Consider creating a GraphView and add the value to its "
                         "inputs then clone, or setting 'allow_outer_scope_values' to True to allow referencing outer-scope values."
                     )
+                if input in self._pending_outputs:
+                    raise ValueError(
+                        f"Value '{input}' used by node '{node}' is defined by a later node of the graph "
+                        "being cloned. Sort the graph topologically before cloning it."
+                    )
                 # When preserving outer-scope values, pass them through unchanged instead of cloning.
                 new_inputs.append(input)
             else:
@@ -215,6 +223,7 @@ class Cloner:
         # Copy output properties
         for output, new_output in zip(node.outputs, new_node.outputs):
             self._value_map[output] = new_output
+            self._pending_outputs.discard(output)
             new_output.name = output.name
             new_output.shape = output.shape.copy() if output.shape is not None else None
             new_output.type = copy.deepcopy(output.type)
@@ -291,6 +300,7 @@ class Cloner:
             self._clone_or_get_value(v, deep_copy=deep_copy)
             for v in graph.initializers.values()
         ]
+        self._pending_outputs.update(output for node in graph for output in node.outputs)
         nodes = [self.clone_node(node, deep_copy=deep_copy) for node in graph]
         # Looks up already cloned values. Here we know graph outputs will not be None
         output_values = typing.cast(
